@@ -2,14 +2,13 @@
    Only statements, [exact], and Print Assumptions live here. *)
 From PG Require Import Lib.Strs Model.Registry Proofs.Registry.
 
-(* Full statement (FALSE on the current tree, see the two refutations F11b, F11c; F11a is fixed):
+(* Full statement (FALSE on the current tree, see the refutation F11b; F11a and F11c are fixed):
      forall l h, Works (fold_left (step l) h init).
 
    For every core layout and every history of generate calls (any length, repetition, force on/off,
    changing code sets) that meets the executable guard — the core package has at least one
-   component (well-formedness; F11a is fixed: a core is shared at any depth), the client whose directory contains the core is never regenerated through the direct path
-   while that directory exists [F11b], and no non-force call hits a directory holding only the
-   core with coinciding aliases [F11c] — every generated client finds each class it imports from
+   component (well-formedness; F11a is fixed: a core is shared at any depth), and the client whose directory contains the core is never regenerated through the direct path
+   while that directory exists [F11b] — every generated client finds each class it imports from
    the core among the emitted aliases, and every client reported as generated is present. *)
 Theorem C11_partial : forall l h, guard l h = true -> Works (run l h).
 Proof. exact works_under_guard. Qed.
@@ -30,16 +29,17 @@ Proof. exact fixed_F11a. Qed.
 Print Assumptions C11_fixed_F11a.
 
 Theorem C11_refuted_F11b :
-  wf_layout l_in = true /\ guard_F11b l_in h_F11b = false /\ guard_F11c l_in h_F11b = true
+  wf_layout l_in = true /\ guard_F11b l_in h_F11b = false
   /\ ~ Inv (run l_in h_F11b).
 Proof. exact refuted_F11b. Qed.
 Print Assumptions C11_refuted_F11b.
 
-Theorem C11_refuted_F11c :
-  wf_layout l_in = true /\ guard_F11b l_in h_F11c = true /\ guard_F11c l_in h_F11c = false
-  /\ Inv (run l_in h_F11c) /\ ~ Claimed_present (run l_in h_F11c).
-Proof. exact refuted_F11c. Qed.
-Print Assumptions C11_refuted_F11c.
+(* regression: F11c is fixed (the non-force diff check reports files present on one side only) *)
+Theorem C11_fixed_F11c :
+  guard l_in h_F11c = true /\ Works (run l_in h_F11c)
+  /\ map snd (trace l_in init h_F11c) = [true; false] /\ claimed (run l_in h_F11c) = [c2].
+Proof. exact fixed_F11c. Qed.
+Print Assumptions C11_fixed_F11c.
 
 Theorem C11_guard_nonvacuous :
   guard l_ok h_ok = true /\ aliases (run l_ok h_ok) = Some [404; 409] /\ length (clients (run l_ok h_ok)) = 3%nat.
